@@ -7,7 +7,9 @@ import contracts.dispatch as cd
 
 def run(rep, kf, tier, seed):
     cfgc.reads_frame_obligations(rep, "C16")
-    engine_b.discharge(rep, kf, [cfgc.get_content_type_contract(), cfgc.class_from_string_contract(), cc.from_data_contract()],
+    import contracts.responses_b as rb
+    engine_b.discharge(rep, kf, [cfgc.get_content_type_contract(), cfgc.class_from_string_contract(), cc.from_data_contract(),
+                                 rb.body_from_data_contract()],
                        "C16", tier, seed)
     rep.obligations = [o for o in rep.obligations if "C16" in o.props or o.id.endswith("no-exception-escapes")]
     cd.discharge(rep, kf, "C16", tier, seed)
